@@ -60,7 +60,9 @@ impl<F: Fn(u64) -> usize> Iterator for FindChangePoints<F> {
             if new_val != self.prev_value {
                 break;
             }
-            step *= 2;
+            // If the step cannot be doubled, the next probe would be beyond
+            // u64::MAX: there are no further change points we can find
+            step = step.checked_mul(2)?;
         }
 
         // Binary search in the last exponential step to find exact change point
